@@ -54,6 +54,42 @@ def positive_example(rep):
             rep.unresolved('SELF-TEST', k, 'sa/rules/c15.py:POSITIVE', 'the effect analysis no longer behaves as expected on the embedded example')
 
 
+UNORDERED = {'imap_unordered', 'as_completed'}
+
+
+def unordered_uses(fnode):
+    """(line, name) of every reference to a completion-order primitive in a function, and whether the function re-orders what it collects"""
+    import ast
+    uses = [(n.lineno, n.attr) for n in ast.walk(fnode) if isinstance(n, ast.Attribute) and n.attr in UNORDERED]
+    uses += [(n.lineno, n.id) for n in ast.walk(fnode) if isinstance(n, ast.Name) and n.id in UNORDERED]
+    reorders = any(isinstance(n, ast.Call) and (isinstance(n.func, ast.Name) and n.func.id == 'sorted' or isinstance(n.func, ast.Attribute) and n.func.attr in ('sort', 'argsort'))
+                   for n in ast.walk(fnode))
+    return sorted(set(uses)), reorders
+
+
+def no_schedule(rep, model):
+    import ast
+    n = 0
+    for q, fn in sorted(model.funcs.items()):
+        n += 1
+        uses, reorders = unordered_uses(fn.node)
+        for ln, nm in uses:
+            if reorders:
+                rep.ok('NO-SCHEDULE', f'{fn.name}:{nm}', f'{fn.path}:{ln} {fn.name}', found='completion-order primitive in a function that re-orders its results: not decided here', nontrivial=False)
+            else:
+                rep.violation('NO-SCHEDULE', f'{fn.name}:{nm}', f'{fn.path}:{ln} {fn.name}', expected='results collected in submission order (Pool.imap / map)',
+                              found=f'{nm}: results arrive in completion order, the returned list depends on worker timing', key=f'NO-SCHEDULE@{fn.mod}:{fn.name}:{nm}')
+    rep.ok('NO-SCHEDULE', 'package', '-', found=f'{n} functions scanned', nontrivial=True)
+    # embedded examples: the rule must fire on the first and stay silent on the second
+    ex1 = ast.parse('def f(pool, g, xs, progress):\n    imap = pool.imap if progress is None else pool.imap_unordered\n    return list(imap(g, xs))\n').body[0]
+    ex2 = ast.parse('def f(pool, g, xs):\n    return list(pool.imap(g, xs))\n').body[0]
+    if unordered_uses(ex1)[0] and not unordered_uses(ex1)[1] and not unordered_uses(ex2)[0]:
+        rep.ok('SELF-TEST', 'no-schedule', 'sa/rules/c15.py:no_schedule', found='rule fires / stays silent as expected on the embedded example', nontrivial=False)
+    else:
+        rep.unresolved('SELF-TEST', 'no-schedule', 'sa/rules/c15.py:no_schedule', 'the completion-order query no longer behaves as expected on the embedded example')
+    return n
+
+
 def check(rep, model, tier):
     rep.rule('EFF-PARAM', 'the closed effect summary (alias analysis + call-graph fixpoint) of every claimed public function contains no write through '
                           'any parameter (subscript/attribute store, del, augmented assignment, mutator method, inplace=True, or passing to a callee that writes)')
@@ -61,6 +97,9 @@ def check(rep, model, tier):
     rep.rule('EFF-LOST', 'no store goes through an unbound copy-on-write temporary (chained DataFrame assignment)')
     rep.rule('NO-GLOBAL', 'no function writes module-level state; no parameter with a mutable default is written through (shared across calls); no caching decorator')
     rep.rule('NO-AMBIENT', 'analysis functions call no RNG / clock / environment (documented exception: jitter in plot_feature_categorical)')
+    rep.rule('NO-SCHEDULE', 'no result is collected in completion order: Pool.imap_unordered / concurrent.futures.as_completed (called or merely referenced, e.g. bound to a '
+                            'name and called later) appear in no function, unless that function sorts what it collected (sorted / .sort / argsort); with them '
+                            'the table at a position depends on worker timing and a repeated call can return a different list')
     rep.rule('SELF-TEST', 'embedded positive / negative examples on which the zero-instance rules must fire / stay silent')
     rep.assumptions += ['neurodsp / numpy / pandas callees do not write their inputs (read for filter_signal, amp_by_time, detect_bursts_dual_threshold)',
                         'objects sent through multiprocessing.Pool are pickled: no effect flows back',
@@ -116,6 +155,7 @@ def check(rep, model, tier):
             if fn.name in AMBIENT_EXCEPTIONS:
                 continue
             rep.violation('NO-AMBIENT', f'{fn.name}:{dotted}', f'{fn.path}:{ln} {fn.name}', expected='no RNG / clock / environment access', found=dotted)
+    n_sched = no_schedule(rep, model)
     # module-level mutable state that functions read and some function writes is covered by NO-GLOBAL; count what was looked at
     rep.ok('NO-GLOBAL', 'package', '-', found=f'{n_fn} functions scanned', nontrivial=True)
     rep.ok('EFF-ROVIEW', 'package', '-', found=f'{n_fn} functions scanned, read-only views armed={ro}', nontrivial=True)
